@@ -172,8 +172,14 @@ def window_case(draw):
     return dict(part="windows", desc=draw(e2e.window_structure()), ff=draw(st.sampled_from(strat.FFS)), opts=list(mode), wild=False)
 
 
+def tip_cases(tier="quick"):
+    ffs = ["AMBER", "CHARMM", "PARSE"]
+    return [dict(part="tiptable", desc=d, ff=ffs[k % 3], opts=[], wild=False) for k, d in enumerate(e2e.tip_table(tier))]
+
+
 def parts(tier):
     return [
+        Part("tiptable", check, cases=lambda: tip_cases(tier), exhaustive=True),
         Part("e2e", check, strategy=case(), budget=dict(quick=640, thorough=12000)),
         Part("windows", check, strategy=window_case(), budget=dict(quick=240, thorough=5000)),
     ]
